@@ -20,9 +20,9 @@ Correspondence: pass by pass.  For every enabled pass of `_simplify_once` (and e
 the loop of `simplify`) the real model *before* the pass (obtained by running the real code with
 the later passes switched off) is serialised — every equation as its real MX tree (op/dep/name) —
 and given to the Lean model's function for that pass (driver `drv_c14`); the outcome is compared
-with the real model *after* the pass: variable lists and their order, `aliases` flags, the alias
+with the real model *after* the pass: variable lists (compared as sets: no property fixes their order), `aliases` flags, the alias
 relation (canonical variables, classes, signs), number of kept equations, values of parameters and
-constants, and the value of every equation / initial equation / delay argument at exact random
+constants, and the values of the equations and initial equations (as multisets) and of the delay arguments at exact random
 points (evaluated by the Lean `Ex.eval`).  The passes that are CasADi's own work (vector expansion
 of scalar models, the SX round trip) are checked to be value preserving; `substitute(...).is_zero()`
 answers used by the alias detection are observed on the real MX and handed to the model.
@@ -34,8 +34,9 @@ PROP = "C14"
 DRIVERS = ["drv_c14"]
 RULE = ("one case = one generated model (3-8 algebraic unknowns, 0-2 states, 1-5 parameters incl. parameter expressions, "
         "1-2 constants, 0-2 inputs; equation and declaration order shuffled) with one sampled option set over the 14 "
-        "simplification options; streams: main (affine), nonlinear (bijective non-linear definitions), contradiction "
-        "(x = y with x = -y), iter (aliases that appear in the second iteration); non-trivial = the real simplify changed a "
+        "simplification options; streams: main (affine), nonlinear (bijective non-linear definitions, if-equations), contradiction "
+        "(x = y with x = -y), iter (aliases that appear in the second iteration), delay (delayed expression over eliminated "
+        "variables), aliaschain (trees of 3-6 alias equations mixing alg-alg links with links to a protected variable, planted orders); non-trivial = the real simplify changed a "
         "variable list or the number of equations; distinct = distinct (model text, option set)")
 TRUSTED = ["CasADi: `ca.substitute`, `Function.expand`, evaluation of MX functions at exactly representable points; its "
            "on-the-fly rewriting and `is_zero` are observed on every run, not modelled (the Lean theorems quantify over every "
